@@ -15,7 +15,15 @@ def build(rng, i):
     for p in paths:
         sp.files[p] = p + "\n"
     s = sp.src("src", paths)
-    kind = i % 5
+    kind = i % 6
+    if kind == 5:
+        # a tagging component and a Concatenator are siblings on one out-port (the tagger slower than the concatenator);
+        # the concatenated file is consumed downstream
+        tg = sp.raw("COMP maptags %s %s %d %s %d" % (hx("tagger"), hx("k"), s, hx("out"), rng.choice([5, 30, 100])))
+        cc = sp.raw("COMP concat %s %s %d %s" % (hx("cc"), hx("all.txt"), s, hx("out")))
+        sp.proc(t3.Proc("after", kind="cat", ins=[("a", [(cc, "out")])], outs=[("o", "{i:a}.after")]))
+        sp.proc(t3.Proc("tagged", kind="cat", ins=[("a", [(tg, "out")])], outs=[("o", "{i:a}.tagged")]))
+        return sp
     if kind == 4:
         # sibling consumers of one source with path modifiers in their output patterns and commands, default names,
         # parameter feeders: everything task formation touches (formatting helpers, regular expressions) runs concurrently
@@ -77,7 +85,7 @@ def case(args):
         elif impl["rc"] != 0:
             problems.append(("unexpected-failure", "rc=%s %s" % (impl["rc"], impl["stderr"][-300:])))
         return {"spec": sp.text(), "bufsize": sp.bufsize, "problems": problems, "ntasks": len(sp.nodes), "rc": impl["rc"], "stderr": impl["stderr"][-200:], "yield": None,
-                "wall": impl["wall"], "kind": ["fanout+tagging", "source-tagging+groupby", "fanin+multicore+params", "substream+streaming", "siblings+modifiers"][i % 5] + ("/hooks-off" if quiet else "")}
+                "wall": impl["wall"], "kind": ["fanout+tagging", "source-tagging+groupby", "fanin+multicore+params", "substream+streaming", "siblings+modifiers", "tagger+concatenator-siblings"][i % 6] + ("/hooks-off" if quiet else "")}
     finally:
         sc.close()
 
@@ -93,7 +101,7 @@ def run(rep, tier, seed):
     t3.report_t3(rep, MODULE, proved, results, "lock discipline on the regenerated skeletons / race-detector runs")
     rep.cov["evaluations"] = len(results)
     rep.cov["distinct_nontrivial"] = len({r["spec"] for r in results})
-    rep.cov["rule"] = "workflows built with `go build -race -tags verif`: fan-out of one out-port to several consumers incl. a tagging component (MapToTags) and sibling outputs, tagging on a shared source plus group-by-tag concatenation, fan-in with multi-core tasks and parameter feeders, sub-streams + streaming + chains, sibling consumers whose output patterns use path modifiers / default names / parameter feeders; in half of the runs the hooks are inactive (they take no lock then, so they cannot hide a race), in a quarter seeded delays at the hook points; a DATA RACE report (exit 66) is a failing input; the race detector is search, not proof; every case is distinct and non-trivial"
+    rep.cov["rule"] = "workflows built with `go build -race -tags verif`: fan-out of one out-port to several consumers incl. a tagging component (MapToTags) and sibling outputs, tagging on a shared source plus group-by-tag concatenation, fan-in with multi-core tasks and parameter feeders, sub-streams + streaming + chains, sibling consumers whose output patterns use path modifiers / default names / parameter feeders, a tagging component beside a Concatenator on one out-port; in half of the runs the hooks are inactive (they take no lock then, so they cannot hide a race), in a quarter seeded delays at the hook points; a DATA RACE report (exit 66) is a failing input; the race detector is search, not proof; every case is distinct and non-trivial"
     rep.cov["samples"] = [results[0]["spec"]]
     kinds = {}
     for r in results:
